@@ -122,6 +122,7 @@ class Interp:
         self.c: dict[str, int] = {}
         self.log: list[str] = []
         self.nested_now: dict[int, int] = {}  # top-level task id -> current nesting depth
+        self.left_cleanly: dict[Any, list[Any]] = {}  # task id -> contexts that task entered and left by a plain return
         self.shared: Any = None
         self.outer_tg: dict[int, Any] = {}
         self.prebuilt: dict[int, list[Any]] = {}
@@ -216,6 +217,17 @@ class Interp:
             kind = step[0]
             if kind == "check":
                 self.check(tid, stack, "check")
+                gone = self.left_cleanly.get(tid)
+                if gone and self.seq % 2 == 0:
+                    # a context that this task has left long ago is "left" once more (a clean-up routine that calls __aexit__
+                    # regardless): whatever that call does or raises, what is current here does not change
+                    old = gone.pop(0)
+                    try:
+                        await old.__aexit__(None, None, None)
+                    except Exception:
+                        pass
+                    self.inc("contexts_left_a_second_time_later_on")
+                    self.check(tid, stack, "after-a-second-exit-of-an-old-context")
             elif kind == "yield":
                 for _ in range(step[1]):
                     await checkpoint()
@@ -331,6 +343,8 @@ class Interp:
                             self.bad("current-block-raised", f"task {tid}: leaving a block raised {describe_exc(eg)}")
                 self.note(tid, f"left depth {len(stack) + 1}")
                 self.check(tid, stack, f"after-leave-by-{leave}")
+                if leave == "return":
+                    self.left_cleanly.setdefault(tid, []).append(ctx)
             elif kind == "spawn":
                 _, how, body = step
                 self.inc(f"spawn_{how}")
